@@ -3,7 +3,7 @@
     theorems that carry a validation guarantee over to the executor).  No proofs in this file. *)
 From Coq Require Import List NArith Bool.
 From ApiFu Require Import Base.Sexp.
-From ApiFu Require Vld.Ast ExeA.ArgData ExeA.ArgArgs Val.Values.
+From ApiFu Require Vld.Ast ExeA.ArgData ExeA.ArgArgs ExeA.ArgSpec Val.Values.
 Import ListNotations.
 
 (** same output types under the same names, same root types, the same arguments (names and
@@ -47,7 +47,9 @@ Definition fields_agree (argdefs_of : ExeA.ArgData.name -> ExeA.ArgData.argdefs)
                          && args_agree (Vld.Ast.f_args d) (argdefs_of (fst f))
                          && match Vld.Ast.f_req d with [] => true | _ => false end
              | None => false
-             end) ef.
+             end) ef
+  && forallb (fun f : Vld.Ast.name * Vld.Ast.field_def =>
+                match ExeA.ArgData.assoc (fst f) ef with Some _ => true | None => false end) vf.
 
 (** an interface's fields: names and types (argument definitions are kept per object type) *)
 Definition iface_fields_agree (vf : list (Vld.Ast.name * Vld.Ast.field_def)) (ef : list (ExeA.ArgData.name * ExeA.ArgData.sty)) : bool :=
@@ -55,8 +57,11 @@ Definition iface_fields_agree (vf : list (Vld.Ast.name * Vld.Ast.field_def)) (ef
   forallb (fun f : ExeA.ArgData.name * ExeA.ArgData.sty =>
              match Vld.Ast.assoc (fst f) vf with
              | Some d => sty_agree (Vld.Ast.f_type d) (snd f)
+                         && match Vld.Ast.f_req d with [] => true | _ => false end
              | None => false
-             end) ef.
+             end) ef
+  && forallb (fun f : Vld.Ast.name * Vld.Ast.field_def =>
+                match ExeA.ArgData.assoc (fst f) ef with Some _ => true | None => false end) vf.
 
 Definition scalar_agree (v : Vld.Ast.scalar) (e : ExeA.ArgData.scalar_kind) : bool :=
   match v, e with
@@ -101,5 +106,46 @@ Definition schemas_agree (VS : Vld.Ast.schema) (ES : ExeA.ArgData.schema) : bool
              (Vld.Ast.s_types VS)
   && bytes_eqb (Vld.Ast.s_query VS) (ExeA.ArgData.query ES)
   && opt_names_agree (Vld.Ast.s_mutation VS) (ExeA.ArgData.mutation ES)
-  && opt_names_agree (Vld.Ast.s_subscription VS) (ExeA.ArgData.subscription ES).
+  && opt_names_agree (Vld.Ast.s_subscription VS) (ExeA.ArgData.subscription ES)
+  && forallb (fun nf : Vld.Ast.name * Vld.Ast.field_def =>
+                bytes_eqb (fst nf) ExeA.ArgData.n_schema || bytes_eqb (fst nf) ExeA.ArgData.n_type) (Vld.Ast.s_meta VS).
+
+(** ** well-formedness of the executor's encoding of the schema, as schema.New guarantees it
+    (decidable; evaluated by the correspondence check on every composed case):
+    type names are the keys of a map; the members of a union and the root types are object types;
+    the type of every field is an output type of the schema; and an object type's field is
+    covariant with the field of every interface it declares (ObjectType.satisfyInterface:
+    isSubTypeOf), in the form used here: every possible object type of the object's field type is a
+    possible object type of the interface's field type. *)
+Definition is_object (ES : ExeA.ArgData.schema) (n : ExeA.ArgData.name) : bool :=
+  match ExeA.ArgData.lookup_type ES n with Some (ExeA.ArgData.NObject _ _) => true | _ => false end.
+Definition output_field (ES : ExeA.ArgData.schema) (f : ExeA.ArgData.name * ExeA.ArgData.sty) : bool :=
+  match ExeA.ArgData.lookup_type ES (ExeA.ArgSpec.sty_base (snd f)) with
+  | Some ExeA.ArgData.NInput | None => false
+  | Some _ => true
+  end.
+Fixpoint e_nodupb (l : list ExeA.ArgData.name) : bool :=
+  match l with [] => true | x :: r => negb (ExeA.ArgData.mem x r) && e_nodupb r end.
+Definition covariant_with (ES : ExeA.ArgData.schema) (fs : list (ExeA.ArgData.name * ExeA.ArgData.sty)) (i : ExeA.ArgData.name) : bool :=
+  match ExeA.ArgData.lookup_type ES i with
+  | Some (ExeA.ArgData.NInterface ifs) =>
+      forallb (fun nf : ExeA.ArgData.name * ExeA.ArgData.sty =>
+                 match ExeA.ArgData.assoc (fst nf) fs with
+                 | Some t => forallb (fun x => ExeA.ArgData.mem x (ExeA.ArgSpec.s_possible ES (ExeA.ArgSpec.sty_base (snd nf)))) (ExeA.ArgSpec.s_possible ES (ExeA.ArgSpec.sty_base t))
+                 | None => false
+                 end) ifs
+  | _ => false
+  end.
+Definition es_wf (ES : ExeA.ArgData.schema) : bool :=
+  e_nodupb (map fst (ExeA.ArgData.types ES))
+  && forallb (fun nt : ExeA.ArgData.name * ExeA.ArgData.named_type =>
+                match snd nt with
+                | ExeA.ArgData.NObject fs ifs => forallb (output_field ES) fs && forallb (covariant_with ES fs) ifs
+                | ExeA.ArgData.NInterface fs => forallb (output_field ES) fs
+                | ExeA.ArgData.NUnion ms => forallb (is_object ES) ms
+                | _ => true
+                end) (ExeA.ArgData.types ES)
+  && is_object ES (ExeA.ArgData.query ES)
+  && match ExeA.ArgData.mutation ES with Some m => is_object ES m | None => true end
+  && match ExeA.ArgData.subscription ES with Some m => is_object ES m | None => true end.
 
